@@ -291,6 +291,34 @@ def near_misses(il: Any) -> list[tuple[str, Any]]:
                 out.append(("unused_redn_var", il3))
         out.append(("red_of_sum", rebuild(Reduce(e.inner_expr + 1, e.op, e.bounds))))
         out.append(("red_scaled", rebuild(2 * Reduce(e.inner_expr, e.op, e.bounds))))
+    # an axis that NO operand supplies: the same expression with every index variable
+    # shifted by one inside a result with an extra leading axis of length 2 (a broadcast of
+    # the whole operation: not the operation itself), and with an extra trailing axis
+    class ShiftIx(IdentityMapper):
+        def map_variable(self, expr: Any) -> Any:
+            if is_ix(expr):
+                return p.Variable(f"_{int(expr.name[1:]) + 1}")
+            return expr
+    if all(isinstance(d, int) for d in il.shape):
+        out.append(("extra_leading_axis", rebuild(ShiftIx()(il.expr), shape=(2, *il.shape))))
+        out.append(("extra_trailing_axis", rebuild(il.expr, shape=(*il.shape, 2))))
+    # an outer product / sum: the operands index DIFFERENT result axes
+    if isinstance(e, (p.Sum, p.Product)) and len(e.children) == 2 and len(il.shape) == 1 \
+            and all(isinstance(c, p.Subscript) and len(c.index_tuple) == 1
+                    for c in e.children) and isinstance(il.shape[0], int):
+        c0, c1 = e.children
+        out.append(("outer", rebuild(type(e)((c0, p.Subscript(c1.aggregate,
+                                                              (p.Variable("_1"),)))),
+                                     shape=(il.shape[0], il.shape[0]))))
+        # ... of operands of DIFFERENT lengths (they do not broadcast against each other)
+        n = il.shape[0]
+        other = pt.make_placeholder("zz_other", (n + 1,), il.bindings[c1.aggregate.name].dtype)
+        out.append(("outer_mixed", pt.IndexLambda(
+            expr=type(e)((c0, p.Subscript(p.Variable("_in9"), (p.Variable("_1"),)))),
+            shape=(n, n + 1), dtype=il.dtype,
+            bindings=constantdict({**il.bindings, "_in9": other}),
+            axes=tuple(pt.array.Axis(frozenset()) for _ in range(2)),
+            var_to_reduction_descr=il.var_to_reduction_descr, tags=il.tags)))
     if len(il.shape) == 1:
         out.append(("bare_index", rebuild(p.Variable("_0"))))
         out.append(("index_plus", rebuild(p.Variable("_0") + 1)))
